@@ -55,7 +55,7 @@ import (
 
 func TestMain(m *testing.M) {
 	stats.Init("C19")
-	stats.Rule("objects: 24 socket constructors (fresh and connected over inproc), contexts of req/rep/sub/surveyor/respondent, dialers and listeners of inproc/ipc/tcp/tls+tcp/ws/wss (before and after Dial/Listen, and through the NewDialer/NewListener option map), pipes of the 6 transports; names: every Option* constant, ws and ipc specials, arbitrary strings; values: typed boundary pool (int MinInt,-1,0,1,2,255,256,65536,MaxInt; Duration MinInt64,-1,0,1ns,1ms,1h,MaxInt64; bool; string; []byte; nil; time.Time; uint32; os.FileMode; *tls.Config nil/valid; float64; struct{}; int64; int32; uint) enumerated exhaustively, plus rapid Set/Get sequences with random names/values; effects (zero deadline/retry/survey time, queue length admits n, inheritance, queue resize with full and empty queues, unsupported operations, Device over all constructor pairs). Non-trivial: boundary value (negative, zero, max, wrong type, nil) or an accepted value whose effect/round trip was checked; distinct by (object kind, state, name, value class) resp. scenario parameters")
+	stats.Rule("objects: 24 socket constructors (fresh and connected over inproc), contexts of req/rep/sub/surveyor/respondent, dialers and listeners of inproc/ipc/tcp/tls+tcp/ws/wss (before and after Dial/Listen, and through the NewDialer/NewListener option map), pipes of the 6 transports; names: every Option* constant, ws and ipc specials, arbitrary strings; values: typed boundary pool (int MinInt,-1,0,1,2,255,256,65536,MaxInt; Duration MinInt64,-1,0,1ns,1ms,1h,MaxInt64; bool; string; []byte; nil; time.Time; uint32; os.FileMode; *tls.Config nil/valid; float64; struct{}; int64; int32; uint) enumerated exhaustively, plus rapid Set/Get sequences with random names/values; effects (zero deadline/retry/survey time, queue length admits n, inheritance, queue resize with full and empty queues, unsupported operations, Device over all constructor pairs). Also: effect checks: WEBSOCKET-CHECKORIGIN histories probed with raw upgrade requests, UNIX-IPC-CHMOD file mode, MAX-RCV-SIZE set on socket/endpoint before/after Listen/Dial. Non-trivial: boundary value (negative, zero, max, wrong type, nil) or an accepted value whose effect/round trip was checked; distinct by (object kind, state, name, value class) resp. scenario parameters")
 	stats.Assume("expected result classes come from a table derived from options.go, the protocol/transport sources and the existing tests; where documentation is silent (negative retry/survey/keep-alive/reconnect-on-socket durations, non-positive deadlines on rep/respondent, string for SUBSCRIBE, typed-nil TLS config, mode bits above 0777, LINGER/KEEPALIVE/NO-DELAY/TLS-CONFIG on sockets) both nil and a bad-value/bad-option error are accepted")
 	stats.Assume("queue lengths above 65536 are never generated (allocation size is unspecified)")
 	rc := m.Run()
